@@ -21,6 +21,7 @@ use serde::ser::{Serialize, Serializer};
 use crate::fileinfo::FileInfo;
 use crate::util::{capitalize, error_exit, format_date, format_datetime};
 use crate::util::{parse_filesize, parse_datetime, str_to_bool};
+use crate::util::parse_date;
 
 #[derive(Clone, Debug)]
 pub enum VariantType {
@@ -825,20 +826,20 @@ pub fn get_value(
             let now = Local::now().date_naive();
             Variant::from_string(&format_date(&now))
         }
-        Some(Function::Year) => match parse_datetime(&function_arg) {
-            Ok(date) => Variant::from_int(date.0.year() as i64),
+        Some(Function::Year) => match parse_date(&function_arg) {
+            Some(date) => Variant::from_int(date.year() as i64),
             _ => Variant::empty(VariantType::Int),
         },
-        Some(Function::Month) => match parse_datetime(&function_arg) {
-            Ok(date) => Variant::from_int(date.0.month() as i64),
+        Some(Function::Month) => match parse_date(&function_arg) {
+            Some(date) => Variant::from_int(date.month() as i64),
             _ => Variant::empty(VariantType::Int),
         },
-        Some(Function::Day) => match parse_datetime(&function_arg) {
-            Ok(date) => Variant::from_int(date.0.day() as i64),
+        Some(Function::Day) => match parse_date(&function_arg) {
+            Some(date) => Variant::from_int(date.day() as i64),
             _ => Variant::empty(VariantType::Int),
         },
-        Some(Function::DayOfWeek) => match parse_datetime(&function_arg) {
-            Ok(date) => Variant::from_int(date.0.weekday().number_from_sunday() as i64),
+        Some(Function::DayOfWeek) => match parse_date(&function_arg) {
+            Some(date) => Variant::from_int(date.weekday().number_from_sunday() as i64),
             _ => Variant::empty(VariantType::Int),
         },
 
